@@ -97,7 +97,7 @@ def apply_contract(interp, c, func, args, kwargs):
     def raise_(exc_cls, spec):
         exc = _make_exc(interp, exc_cls, spec, env)
         ens = spec.get('ensures')
-        if ens is not None:
+        if ens is not None and 'trace' not in _param_names(ens):
             # exceptional postcondition: assumed of the exception the callee raises
             env_x = _clause_env(bound, ghosts, {'exc': exc, 'old': old, 'trace': st.trace, 'ghost': st.ghost})
             try:
@@ -140,6 +140,9 @@ def apply_contract(interp, c, func, args, kwargs):
                 continue
             # (clause, 'effect') : executed for its effect on ghost state
             _call_pred(interp, clause[0], env2)
+            continue
+        if 'trace' in _param_names(clause):
+            # describes the events *during* the call: says nothing about the caller's trace (check-only)
             continue
         try:
             n_dec = len(st.decisions)
